@@ -235,6 +235,11 @@ func evRejectNode(node string) h.Event {
 	return h.Event{Label: "api-rejects(" + node + ")", Apply: func(hh *h.Hist) { hh.SlotFlags["reject:"+node] = true }}
 }
 
+// evRefreshFails: the cloud provider refresh at the head of the coming scan fails once.
+func evRefreshFails() h.Event {
+	return h.Event{Label: "refresh-fails-once", Apply: func(hh *h.Hist) { hh.SlotFlags["refresh-fail"] = true }}
+}
+
 func evRestart() h.Event {
 	return h.Event{Label: "restart", Apply: func(hh *h.Hist) { hh.Restart = true }}
 }
